@@ -68,4 +68,34 @@ def layerDomain (a : Arch) (ls : Layers) (r : LRuleSpec) : Bool :=
   (r.anything || (!r.objects.isEmpty && r.objects.all (fun o => ls.any (·.1 == o) && o != r.subject) &&
     nodupC r.objects))
 
+/-- listed modules of DIFFERENT layers are pairwise unrelated; inside one layer anything goes (a module and its
+    sub module, the same module twice) -/
+def crossUnrelated : Layers → Bool
+  | [] => true
+  | l :: ls => (l.2.all fun x => ls.all fun l' => l'.2.all fun y => !related x y) && crossUnrelated ls
+
+/-- relaxed domain of the oracle (audit finding F6): every layer lists at least one module, listed modules exist,
+    listed modules of DIFFERENT layers are pairwise unrelated, layer names are distinct, the subject is a defined
+    layer, the objects are defined layers different from the subject (the same object layer may be named twice) -/
+def layerDomain' (a : Arch) (ls : Layers) (r : LRuleSpec) : Bool :=
+  ls.all (fun l => !l.2.isEmpty) &&
+  (ls.flatMap (·.2)).all a.nodes.contains &&
+  crossUnrelated ls &&
+  nodupC (ls.map (·.1)) &&
+  ls.any (·.1 == r.subject) &&
+  (r.anything || (!r.objects.isEmpty && r.objects.all (fun o => ls.any (·.1 == o) && o != r.subject)))
+
+/-- the domain with everything about existence required only of the layers the rule mentions: they list at least one
+    module and their listed modules exist; layers that the rule does not mention may list nothing, and what they list
+    need not exist (only be a well-formed dotted name). Cross-layer unrelatedness and distinct names are still required
+    of ALL layers -/
+def layerDomainK (a : Arch) (ls : Layers) (r : LRuleSpec) : Bool :=
+  (ls.flatMap (·.2)).all nameWF &&
+  crossUnrelated ls &&
+  nodupC (ls.map (·.1)) &&
+  ls.any (·.1 == r.subject) && !(ls.get r.subject).isEmpty && (ls.get r.subject).all a.nodes.contains &&
+  (r.anything || (!r.objects.isEmpty &&
+    r.objects.all (fun o => ls.any (·.1 == o) && o != r.subject && !(ls.get o).isEmpty &&
+      (ls.get o).all a.nodes.contains)))
+
 end PtaSpec
